@@ -57,7 +57,7 @@ class Lexed:
 
     def __init__(self, T, s):
         try:
-            with core.alarm(5.0):
+            with core.alarm(5.0), core.real_mode():
                 toks = T.tokenise(s)
             self.ok, self.err, self.index = True, None, None
             self.toks = [(t.tag, t.begin_index_incl, t.end_index_excl, dict(t._meta)) for t in toks]
@@ -343,6 +343,10 @@ def check(ctx):
         a, b = gen_digits(rng, hi=7), gen_digits(rng, hi=7)
         add(a + ".." + b, "range")
         add(gen_digits(rng, hi=rng.choice((4, 30, 80))), "int")
+    # integer literals of thousands of digits (beyond CPython's default int<->str digit limit of 4300): exact values like all others
+    for nd in (4299, 4300, 4301, 5000, 12000):
+        add(str(rng.randrange(1, 10)) + "".join(rng.choice("0123456789") for _ in range(nd - 1)), "int")
+        add("1" + "0" * (nd - 1) + " + 1", "int")
     for _ in range(ctx.n(600, 8000)):
         add(gen_token(rng, consts)[1], "single")
     for w in sorted(T.ALPHA_TOKENS) + ["to", "in"]:
